@@ -90,6 +90,28 @@ fn shallow_outsiders() -> Vec<Leaf> {
     vec![mk(0x20, 0x0f, 0x0f), mk(0xe0, 0x0e, 0x0b)]
 }
 
+/// medium-depth universe of adversary B: chains of 9..13 levels, so that every rewrite of every proof is cheap.
+/// A/A1/A2 share 12 bits (A, A1 differ in bit 13 only, A2 in bit 12 only): a 3-leaf one-sided run;
+/// C/C1 differ in bit 9 only: a collapsed two-leaf chain; B and D are lone leaves.
+fn medium_universe() -> Vec<Leaf> {
+    let a = mk(0x00, 0xa0, 0xa0);
+    let flip = |mut x: Leaf, b: usize| {
+        x[b / 8] ^= 0x80 >> (b % 8);
+        x
+    };
+    let c = mk(0x80, 0xc0, 0xc0);
+    vec![a, flip(a, 13), flip(a, 12), mk(0x40, 0xb0, 0xb0), c, flip(c, 9), mk(0xff, 0xd0, 0xd0)]
+}
+fn medium_outsiders() -> Vec<Leaf> {
+    let u = medium_universe();
+    let flip = |mut x: Leaf, b: usize| {
+        x[b / 8] ^= 0x80 >> (b % 8);
+        x
+    };
+    // diverges inside the A run, the fourth corner of the A fork, diverges inside the C chain, far away
+    vec![flip(u[0], 5), flip(u[1], 12), flip(u[4], 4), mk(0x20, 0xe0, 0xe0)]
+}
+
 fn subset<T: Copy>(u: &[T], mask: u32) -> Vec<T> {
     u.iter().enumerate().filter(|(i, _)| mask >> i & 1 == 1).map(|(_, x)| *x).collect()
 }
@@ -114,14 +136,15 @@ fn sorted_set(leaves: &[Leaf]) -> Vec<Leaf> {
 }
 
 /// (type, hash) of the sub-trie holding `set` (sorted, distinct, all sharing the first `depth` bits);
-/// every MIDDLE hash that occurs is appended to `collect`
-fn ref_node(set: &[Leaf], depth: usize, collect: &mut Vec<[u8; 32]>) -> (u8, [u8; 32]) {
+/// every MIDDLE hash that occurs is appended to `collect`, flagged true when both halves are inhabited
+/// (a two-leaf node counts as such a fork)
+fn ref_node(set: &[Leaf], depth: usize, collect: &mut Vec<([u8; 32], bool)>) -> (u8, [u8; 32]) {
     match set.len() {
         0 => (0, BLANK),
         1 => (1, set[0]),
         2 => {
             let h = hnode(1, 1, &set[0], &set[1]);
-            collect.push(h);
+            collect.push((h, true));
             (2, h)
         }
         _ => {
@@ -129,7 +152,7 @@ fn ref_node(set: &[Leaf], depth: usize, collect: &mut Vec<[u8; 32]>) -> (u8, [u8
             let (tl, hl) = ref_node(&set[..p], depth + 1, collect);
             let (tr, hr) = ref_node(&set[p..], depth + 1, collect);
             let h = hnode(tl, tr, &hl, &hr);
-            collect.push(h);
+            collect.push((h, p > 0 && p < set.len())); // a fork, or one level of a one-sided run
             (2, h)
         }
     }
@@ -648,15 +671,17 @@ fn rewrites(toks: &[Tok], a: &Ann, set: &[Leaf], item: &Leaf, f: &mut impl FnMut
 
 struct ProofJob {
     mask: u32,
-    /// validate every rewrite against every item (true) or only against the item the proof was made for
-    all_items: bool,
-    /// also truncation / trailing byte variants
-    byte_level: bool,
-    /// rewrites of rewrites for proofs with at most this many tokens
-    second_order_max_tokens: usize,
+    /// run adversary B (rewrites, prefixes, trailing bytes) on the honest proofs of this set
+    rewrites: bool,
+    /// also rewrites of rewrites
+    second_order: bool,
 }
 
-fn phase_proofs(rep: &Report, u: &[Leaf], items: &[Leaf], jobs: &[ProofJob], with_rewrites: bool) {
+/// proofs with at most this many tokens get every rewrite validated against every item and every
+/// prefix; longer ones (the 250-level chains) against the proof's own item and 8 prefixes
+const SHORT_PROOF_TOKENS: usize = 64;
+
+fn phase_proofs(rep: &Report, uni: &'static str, u: &[Leaf], items: &[Leaf], jobs: &[ProofJob]) {
     // work unit = (job, item)
     let units: Vec<(usize, usize)> = (0..jobs.len()).flat_map(|j| (0..items.len()).map(move |i| (j, i))).collect();
     units.par_iter().for_each(|&(j, ii)| {
@@ -666,7 +691,7 @@ fn phase_proofs(rep: &Report, u: &[Leaf], items: &[Leaf], jobs: &[ProofJob], wit
         let root = ref_root(&set);
         let item = items[ii];
         let member = set.contains(&item);
-        acc.distinct.push(fxhash(&("proof", job.mask, ii)));
+        acc.distinct.push(fxhash(&("proof", uni, job.mask, ii)));
 
         // two different construction orders of the same set (the second one with duplicates)
         let mut order_a = set.clone();
@@ -731,7 +756,7 @@ fn phase_proofs(rep: &Report, u: &[Leaf], items: &[Leaf], jobs: &[ProofJob], wit
             acc.flush(rep);
             return;
         };
-        if !with_rewrites {
+        if !job.rewrites {
             acc.flush(rep);
             return;
         }
@@ -741,7 +766,8 @@ fn phase_proofs(rep: &Report, u: &[Leaf], items: &[Leaf], jobs: &[ProofJob], wit
         };
         let ann = annotate(&toks);
         let own = [item];
-        let targets: &[Leaf] = if job.all_items { items } else { &own };
+        let short = toks.len() <= SHORT_PROOF_TOKENS;
+        let targets: &[Leaf] = if short { items } else { &own };
         let mut bytes = Vec::with_capacity(proof.len() + 1200);
         const B: [&str; 3] = ["rewrite/rejected", "rewrite/accepted-true-correct", "rewrite/accepted-false-correct"];
         let mut second: Vec<Vec<Tok>> = Vec::new();
@@ -754,9 +780,9 @@ fn phase_proofs(rep: &Report, u: &[Leaf], items: &[Leaf], jobs: &[ProofJob], wit
                 }
             }
             if accepted {
-                acc.distinct.push(fxhash(&("rw", job.mask, &bytes)));
+                acc.distinct.push(fxhash(&("rw", uni, job.mask, &bytes)));
             }
-            if toks.len() <= job.second_order_max_tokens {
+            if short && job.second_order {
                 second.push(t.to_vec());
             }
         });
@@ -765,12 +791,10 @@ fn phase_proofs(rep: &Report, u: &[Leaf], items: &[Leaf], jobs: &[ProofJob], wit
             let a1 = annotate(t1);
             rewrites(t1, &a1, &set, &item, &mut |tag, t| {
                 ser_into(t, &mut bytes);
-                for it in targets {
-                    check_candidate(&mut acc, "rewrite", B2, &set, &root, &bytes, it, tag);
-                }
+                check_candidate(&mut acc, "rewrite2", B2, &set, &root, &bytes, &item, tag);
             });
         }
-        if job.byte_level {
+        {
             const BT: [&str; 3] = ["prefix/rejected", "prefix/accepted-true-correct", "prefix/accepted-false-correct"];
             const BA: [&str; 3] = ["trailing/rejected", "trailing/accepted-true-correct(malleable)", "trailing/accepted-false-correct(malleable)"];
             // every proper prefix that ends at a token boundary, one byte after it, or one byte before it
@@ -781,6 +805,10 @@ fn phase_proofs(rep: &Report, u: &[Leaf], items: &[Leaf], jobs: &[ProofJob], wit
                 cut += if matches!(t, Tok::E | Tok::M) { 1 } else { 33 };
             }
             cuts.push(cut - 1);
+            if !short {
+                let n = proof.len();
+                cuts = vec![1, 2, 34, n / 2, n - 34, n - 33, n - 2, n - 1];
+            }
             cuts.sort_unstable();
             cuts.dedup();
             for c in cuts {
@@ -832,15 +860,17 @@ fn shapes(m: usize) -> Vec<Vec<bool>> {
 }
 
 /// leaf alphabet of adversary A for one set
-fn alphabet(set: &[Leaf], terminals: &[Leaf], type_confusion: bool) -> Vec<Tok> {
+fn alphabet(set: &[Leaf], terminals: &[Leaf], shallow: bool) -> Vec<Tok> {
     let mut a = vec![Tok::E];
     for t in terminals {
         a.push(Tok::T(*t));
     }
-    let mut hs = Vec::new();
-    let (t, h) = ref_node(set, 0, &mut hs);
+    let mut nodes = Vec::new();
+    let (t, h) = ref_node(set, 0, &mut nodes);
+    // shallow universe: every honest subtree hash; deep universe: forks only (a one-sided run has 254 levels)
+    let mut hs: Vec<[u8; 32]> = nodes.iter().filter(|n| shallow || n.1).map(|n| n.0).collect();
     hs.push(compress(t, &h)); // the root itself (differs from the node hash for 0/1 element sets)
-    if type_confusion {
+    if shallow {
         hs.push(BLANK);
         hs.extend_from_slice(set); // leaf values typed as TRUNCATED
     }
@@ -952,20 +982,23 @@ fn phase_trees(rep: &Report, max_middles: usize) -> u64 {
 // (3c) deep chains around the depth limit
 // ---------------------------------------------------------------------------------------------
 
-fn phase_depth(rep: &Report, term_middles: usize) -> u64 {
+fn phase_depth(rep: &Report, quick: bool) -> u64 {
+    let term_middles = if quick { 1 } else { 2 };
     let u = universe();
     let pick = |n: &str| u.iter().find(|x| x.0 == n).unwrap().1;
-    let d: Vec<Leaf> = ["Z", "Z1", "Z2", "F1", "F"].iter().map(|n| pick(n)).collect();
+    let names: &[&str] = &["Z", "Z1", "Z2", "F1", "F"];
+    let d: Vec<Leaf> = names.iter().map(|n| pick(n)).collect();
     let outs = outsiders();
     let items: Vec<Leaf> = d.iter().copied().chain([outs[0].1, outs[1].1, outs[3].1]).collect();
     let term_shapes: Vec<Vec<bool>> = (0..=term_middles).flat_map(shapes).collect();
-    let lengths: Vec<usize> = (250..=258).collect();
+    let lengths: Vec<usize> = if quick { (252..=258).collect() } else { (250..=258).collect() };
+    let tops = if quick { 2 } else { 3usize };
     let mut tasks = Vec::new();
     let total = std::sync::atomic::AtomicU64::new(0);
     for mask in 1u32..1 << d.len() {
         for si in 0..term_shapes.len() {
             for right in [false, true] {
-                for top in 0..3usize {
+                for top in 0..tops {
                     for &k in &lengths {
                         tasks.push((mask, si, right, top, k));
                     }
@@ -978,7 +1011,9 @@ fn phase_depth(rep: &Report, term_middles: usize) -> u64 {
         let mut acc = Acc::default();
         let set = sorted_set(&subset(&d, mask));
         let root = ref_root(&set);
-        let alpha = alphabet(&set, &d, false);
+        // TERMINALs: the universe leaves on the chain's side (the others fail the position audit at level 0)
+        let family: Vec<Leaf> = d.iter().filter(|x| bit(x, 0) == right).copied().collect();
+        let alpha = alphabet(&set, &family, false);
         // sibling of the first chain level: EMPTY, or the honest other half (truncated, or as the real subtree)
         let other: Vec<Leaf> = set.iter().filter(|x| bit(x, 0) != right).copied().collect();
         let mut top_sibling: Vec<Tok> = Vec::new();
@@ -1022,9 +1057,6 @@ fn phase_depth(rep: &Report, term_middles: usize) -> u64 {
         };
         enumerate_trees(&mut acc, "deep", B, &set, &root, &items, &term_shapes[si], &alpha, None, &wrap, 0x1000 + mask as u64);
         total.fetch_add(acc.evals / items.len() as u64, std::sync::atomic::Ordering::Relaxed);
-        if std::env::var("C12_TIMING").is_ok() {
-            eprintln!("[deep] mask {mask} shape {si} right {right} top {top} k {k}: alpha {} evals {} buckets {:?}", alpha.len(), acc.evals, acc.buckets);
-        }
         acc.flush(rep);
     });
     total.into_inner()
@@ -1081,23 +1113,20 @@ fn run(rep: &Report) {
 
     // (2) + (3b)
     let name_mask = |names: &[&str]| -> u32 { names.iter().map(|n| 1u32 << un.iter().position(|x| x.0 == *n).unwrap()).sum() };
-    let sub_mask = if quick { name_mask(&["Z", "Z1", "Z2", "P2", "P4", "P4b", "F"]) } else { name_mask(&["Z", "Z1", "Z2", "P2", "P4", "P4b", "F1", "F"]) };
-    let mut jobs = Vec::new();
-    for mask in 0u32..1 << u.len() {
-        let in_sub = mask & !sub_mask == 0;
-        jobs.push(ProofJob { mask, all_items: in_sub, byte_level: in_sub, second_order_max_tokens: if in_sub && !quick { 12 } else { 0 } });
+    // rewrites of the proofs over U: sets within a sub-universe holding all the deep pairs
+    let sub_mask = if quick { name_mask(&["Z", "Z1", "Z2", "F1", "F"]) } else { name_mask(&["Z", "Z1", "Z2", "P2", "P4", "P4b", "F1", "F"]) };
+    if on("2") {
+        let jobs: Vec<ProofJob> = (0u32..1 << u.len()).map(|mask| ProofJob { mask, rewrites: mask & !sub_mask == 0, second_order: false }).collect();
+        phase_proofs(rep, "U", &u, &items, &jobs);
     }
-    if !on("2") {
-    } else if quick {
-        // completeness everywhere, rewrites on the sub-universe only
-        let (subj, rest): (Vec<ProofJob>, Vec<ProofJob>) = jobs.into_iter().partition(|j| j.all_items);
-        phase_proofs(rep, &u, &items, &rest, false);
-        lap("completeness");
-        phase_proofs(rep, &u, &items, &subj, true);
-    } else {
-        phase_proofs(rep, &u, &items, &jobs, true);
+    lap("proofs+rewrites over U");
+    if on("3b") {
+        let w = medium_universe();
+        let witems: Vec<Leaf> = w.iter().copied().chain(medium_outsiders()).collect();
+        let jobs: Vec<ProofJob> = (0u32..1 << w.len()).map(|mask| ProofJob { mask, rewrites: true, second_order: !quick }).collect();
+        phase_proofs(rep, "W", &w, &witems, &jobs);
     }
-    lap("proofs+rewrites");
+    lap("proofs+rewrites over W");
     {
         let set = sorted_set(&[u[0], u[1], u[9]]);
         let mut s = set.clone();
@@ -1117,7 +1146,7 @@ fn run(rep: &Report) {
 
     // (3c)
     if on("3c") {
-        let total_deep = phase_depth(rep, if quick { 1 } else { 2 });
+        let total_deep = phase_depth(rep, quick);
         rep.extra("enumerated_deep_chain_proofs", json!(total_deep));
     }
     lap("deep chains");
